@@ -210,6 +210,74 @@ def spec_check(d, ch, ob):
     return res
 
 
+def run_driver_h(c):
+    """the wrappers in the other modelling hypotheses (driver_h.cxx)"""
+    exe = c.cxx("driver_h", [os.path.join(HERE, "driver_h.cxx")], SUPPORT)
+    rc, out, err = c.run([exe, c.tier], timeout=900)
+    if rc != 0 or "END cases=" not in out:
+        c.report("driver_h", "driver running the real wrappers in the other hypotheses failed (rc=%d): %s" % (rc, err[-400:]), {"stderr": err[-3000:]}, False)
+        return None
+    return [l for l in out.splitlines() if l.startswith("P ")]
+
+
+def spec_check_h(d, ch, ob):
+    """independent statement for one execution of a wrapper in a hypothesis other than Tridimensional (coarse images: U untouched,
+    C changed on the components of the requested stress measure / inside the operator of the hypothesis, X anything else)"""
+    res = []
+    fn, hyp = d["fn"], d["hyp"]
+    K0 = d["K0"]
+    bs = K0 > 50000
+    Ke = K0 - 100000 if bs else K0
+    doc = documented_kind(Ke)
+    ev = events(ob)
+    ret = ob["ret"]
+    tag = "%s:%s" % (fn, hyp)
+    where = "%s %s tr=%d K0=%g K1=%g K2=%g script[%s]" % (fn, hyp, d["tr"], K0 / 1000., d["K1"] / 1000., d["K2"] / 1000.,
+                                                       ",".join("%s=%s" % (k, ":".join(map(str, v))) for k, v in ch.items() if v[0] >= 0))
+    if ret not in ("-1", "0", "1"):
+        return [("C39", "wrapper-h:%s:retcode:K0=%d:ret=%s" % (tag, K0, ret), "return value %s is not -1, 0 or 1 (%s)" % (ret, where))]
+    if ob["frame"] != "ok":
+        res.append(("C39", "wrapper-h:%s:frame:K0=%d" % (tag, K0), "pointers of the behaviour data not restored or inputs modified (%s)" % where))
+    state = [ob[k] for k in ("flux", "isv", "se", "de")]
+    if "X" in state or ob["K"] == "X":
+        res.append(("C39", "wrapper-h:%s:stray-write:K0=%d" % (tag, K0), "a buffer was written outside the components of the request: %s (%s)" % (ob, where)))
+    if ret == "-1" and any(x != "U" for x in state):
+        res.append(("C40", "s1-written-on-failure:%s:%s" % (tag, ob["err"]),
+                    "return -1 but the output state was written (flux=%s isv=%s se=%s de=%s) (%s)" % (tuple(state) + (where,))))
+    invalid = d["K1"] > 2500 or (d["K2"] > 3500 and not (-500 < K0 < 500))
+    noaxial = d["ps"] == "1" and (d["tr"] & 16) and (fn != "fsh" or d["K1"] > 500)
+    if invalid or noaxial:
+        if ret != "-1" or ev or ob["K"] != "U" or ob["sos"] != "U" or (noaxial and not invalid and ob["err"] != "noaxial"):
+            res.append(("C39", "wrapper-h:%s:%s:K1=%d:K2=%d" % (tag, "invalid-option" if invalid else "no-axial-variable", d["K1"], d["K2"]),
+                        "request that must be refused before the behaviour is built (%s): %s (%s)" % (
+                            "invalid stress measure / tangent operator" if invalid else "plane stress without axial strain / deformation gradient variable", ob, where)))
+        return res
+    if doc is None:
+        return res
+    reqs = [e.split(":") for e in ev if e.startswith("pred:") or e.startswith("integ:")]
+    if reqs and (len(reqs) != 1 or (reqs[0][0], reqs[0][1]) != doc):
+        res.append(("C39", "wrapper-h:%s:request:K0=%d" % (tag, K0), "K[0]=%g documented as %s %s, the behaviour was asked %s (%s)" % (
+            K0 / 1000., doc[0], doc[1], "+".join(r[0] + " " + r[1] for r in reqs), where)))
+    fail = expected_failure(d, ch, doc)
+    if fail != (ret == "-1"):
+        res.append(("C39", "wrapper-h:%s:retcode:K0=%d:%s" % (tag, K0, "missed-failure" if fail else "spurious-failure"),
+                    "return value %s though %s (%s)" % (ret, "a hook failed" if fail else "every hook succeeded", where)))
+        return res
+    if fail:
+        return res
+    if doc[0] == "pred":
+        good = ret == "1" and all(x == "U" for x in state) and ob["K"] == "C" and ob["sos"] == ("S0" if bs else "U")
+    else:
+        prop = min(ch["apriori"][1], ch["apost"][1])
+        good = int(ob["rdt"]) == prop and ret == ("0" if prop < 990 else "1") and ob["flux"] == "C" and ob["isv"] == "W"
+        good = good and ob["se"] == ("W" if d["tr"] & 4 else "U") and ob["de"] == ("W" if d["tr"] & 8 else "U")
+        good = good and ob["K"] == ("U" if doc[1] == "nostiffness" else "C") and ob["sos"] == ("S1" if bs else "U")
+    if not good:
+        res.append(("C39", "wrapper-h:%s:outputs:K0=%d:ret=%s" % (tag, K0, ret), "successful call (%s %s): return code / time step factor / buffers written do not "
+                    "match the request: %s (%s)" % (doc[0], doc[1], ob, where)))
+    return res
+
+
 def policy_agreement(parsed):
     """Warning and None must give the same observations (the policy told to the behaviour apart)"""
     res = []
@@ -274,7 +342,7 @@ def model_sources(c, prefix):
 def correspondence(c, lines, v, prefix):
     """run the extracted model on every observed execution; returns the list of mismatching lines"""
     ml = c.ocaml_extract("c39", [model_sources(c, prefix)[0]],
-                         "From %s Require Import C39Model.\nRequire Import ExtrOcamlBasic.\nExtraction \"c39_model.ml\" integrate wrap documented pinned.\n" % prefix,
+                         "From %s Require Import C39Model.\nRequire Import ExtrOcamlBasic.\nExtraction \"c39_model.ml\" integrate wrap wrap_h documented pinned.\n" % prefix,
                          os.path.join(HERE, "driver.ml"))
     rc, out, err = c.run([ml, variant_bits(v)], input="\n".join(lines) + "\n", timeout=600)
     m = re.search(r"DONE ok=(\d+) bad=(\d+)", out)
@@ -296,15 +364,16 @@ def replay(c, pid):
     if not cfg:
         c.notes.append("replay file has no configuration")
         return
-    exe = c.cxx("driver", [os.path.join(HERE, "driver.cxx")], SUPPORT)
-    rc, out, err = c.run([exe, "replay", cfg["fn"], str(cfg["tr"]), str(cfg["K0"]), str(cfg["K1"]), str(cfg["K2"]), cfg["pol"]])
+    hyp = cfg["fn"] in ("glh", "logh", "fsh")
+    exe = c.cxx("driver_h" if hyp else "driver", [os.path.join(HERE, "driver_h.cxx" if hyp else "driver.cxx")], SUPPORT)
+    rc, out, err = c.run([exe, "replay", cfg["fn"], str(cfg["tr"]), str(cfg["K0"]), str(cfg["K1"]), str(cfg["K2"]), cfg["pol"]] + ([cfg["hyp"]] if hyp else []))
     seen = set()
     for l in out.splitlines():
         if not l.startswith("P "):
             continue
         d, ch, ob = parse(l)
         c.count(1)
-        for (p_, k, w) in spec_check(d, ch, ob):
+        for (p_, k, w) in (spec_check_h if hyp else spec_check)(d, ch, ob):
             if p_ == pid and k not in seen:
                 seen.add(k)
                 c.report(k, w, {"line": l, "replay": replay_of(d)}, True)
